@@ -7,6 +7,7 @@ use crate::gen;
 use crate::rec::*;
 use crate::refxml;
 use crate::sources::{block_on, cuts_from_mask, ChunkedAsync, ChunkedBufRead};
+use quick_xml::events::Event;
 use quick_xml::reader::Reader;
 use proptest::prelude::*;
 use serde::{Deserialize, Serialize};
@@ -29,7 +30,7 @@ pub fn info() -> PropInfo {
         id: "C02",
         run,
         replay,
-        rule: "cases = (input, configuration, cut set, pending pattern, buffer policy). The record sequences (event or error, buffer_position, error_position after every call, up to and including the calls after the end) of read_event on the slice, read_event_into on the whole slice, read_event_into over the chunked BufRead and read_event_into_async over the chunked AsyncBufRead with the pending pattern must be identical. All 2^(n-1) cut sets for every enumerated string; single cuts, cut pairs, fixed piece sizes and random cut sets for longer inputs. Non-trivial = at least one cut falls strictly inside a markup construct. Two further enumerations vary SIZE and OFFSET: fourteen construct kinds (text, long name, quoted value with '>', many attributes, blanks inside tags, comment / CDATA / PI bodies with near-terminators, DOCTYPE with nested brackets, blank runs around text, reference runs, declaration, deep nesting) with an inner length 0..=70 placed after a prefix of 0..=130 bytes, and large inputs whose variable part is 255..70 001 bytes long (block-wise scanners, buffer growth, positions beyond 255 / 65 535, default BufReader capacity). A further stage interleaves RAW reads through Reader::stream() with the events (read_exact of 1..9 bytes, read_until(b'>') through the BufRead half, read_to_end; the sync and the async implementations): the bytes obtained, the positions after the raw read and every later record must be the same for the slice, the chunked BufRead and the chunked AsyncBufRead.",
+        rule: "cases = (input, configuration, cut set, pending pattern, buffer policy). The record sequences (event or error, buffer_position, error_position after every call, up to and including the calls after the end) of read_event on the slice, read_event_into on the whole slice, read_event_into over the chunked BufRead and read_event_into_async over the chunked AsyncBufRead with the pending pattern must be identical. All 2^(n-1) cut sets for every enumerated string; single cuts, cut pairs, fixed piece sizes and random cut sets for longer inputs. Non-trivial = at least one cut falls strictly inside a markup construct. Two further enumerations vary SIZE and OFFSET: fourteen construct kinds (text, long name, quoted value with '>', many attributes, blanks inside tags, comment / CDATA / PI bodies with near-terminators, DOCTYPE with nested brackets, blank runs around text, reference runs, declaration, deep nesting) with an inner length 0..=70 placed after a prefix of 0..=130 bytes, and large inputs whose variable part is 255..70 001 bytes long (block-wise scanners, buffer growth, positions beyond 255 / 65 535, default BufReader capacity). A further stage interleaves RAW reads through Reader::stream() with the events (read_exact of 1..9 bytes, read_until(b'>') through the BufRead half, read_to_end; the sync and the async implementations): the bytes obtained, the positions after the raw read and every later record must be the same for the slice, the chunked BufRead and the chunked AsyncBufRead. Documents made of namespace-heavy pieces are read with NsReader::read_resolved_event / _into / _into_async: resolution result, event, error and positions of every call must agree between the three sources (also after ill-formedness errors the caller reads past).",
         assumptions: &[
             "when the input starts with (a prefix of) a BOM or a UTF-16 signature the first piece is at least 4 bytes (the exception written into the property)",
             "the harness executor polls single-threaded; every Pending is preceded by a wake-up",
@@ -254,6 +255,116 @@ pub fn check_raw(c: &RawCase) -> Verdict {
     v
 }
 
+
+// ---------------------------------------------------------------------------------------------
+// the namespace-aware reader: what read_resolved_event / _into / _into_async return (resolution
+// result AND event, errors, positions) must not depend on the source type or the chunking either
+
+fn ns_rec<E: std::fmt::Debug>(res: &Result<(quick_xml::name::ResolveResult, Event), E>, pos: u64, err_pos: u64) -> (Rec, bool) {
+    match res {
+        Ok((ns, ev)) => {
+            let plain: Result<Event, quick_xml::Error> = Ok(ev.clone());
+            let ev0 = ev_of(&plain);
+            let done = matches!(ev0, Ev::Eof);
+            (Rec { ev: Ev::Other(format!("{:?} / {:?}", ns, ev0)), pos, err_pos }, done)
+        }
+        Err(e) => (Rec { ev: Ev::Other(format!("error {:?}", e)), pos, err_pos }, false),
+    }
+}
+
+pub fn check_ns(c: &Case) -> Verdict {
+    use quick_xml::reader::NsReader;
+    let data = &c.input.0;
+    let cuts = normalise_cuts(data, &c.cuts);
+    let bound = call_bound(data.len()) + EXTRA_CALLS;
+    let base: Vec<Rec> = {
+        let mut r = NsReader::from_reader(&data[..]);
+        apply_cfg(r.config_mut(), c.cfg);
+        let mut out = vec![];
+        let mut extra = 0;
+        for _ in 0..bound {
+            let res = r.read_resolved_event();
+            let fatal = matches!(&res, Err(quick_xml::Error::Syntax(_)) | Err(quick_xml::Error::Io(_)) | Err(quick_xml::Error::Encoding(_)));
+            let (rec, done) = ns_rec(&res, 0, 0);
+            drop(res);
+            out.push(Rec { pos: r.buffer_position(), err_pos: r.error_position(), ..rec });
+            if done || fatal || extra > 0 {
+                extra += 1;
+                if extra > EXTRA_CALLS {
+                    break;
+                }
+            }
+        }
+        out
+    };
+    let chunked: Vec<Rec> = {
+        let mut r = NsReader::from_reader(ChunkedBufRead::new(data, cuts.clone()));
+        apply_cfg(r.config_mut(), c.cfg);
+        let mut out = vec![];
+        let mut extra = 0;
+        let mut buf = Vec::new();
+        for _ in 0..bound {
+            if c.clear {
+                buf.clear();
+            }
+            let res = r.read_resolved_event_into(&mut buf);
+            let fatal = matches!(&res, Err(quick_xml::Error::Syntax(_)) | Err(quick_xml::Error::Io(_)) | Err(quick_xml::Error::Encoding(_)));
+            let (rec, done) = ns_rec(&res, 0, 0);
+            drop(res);
+            out.push(Rec { pos: r.buffer_position(), err_pos: r.error_position(), ..rec });
+            if done || fatal || extra > 0 {
+                extra += 1;
+                if extra > EXTRA_CALLS {
+                    break;
+                }
+            }
+        }
+        out
+    };
+    if let Some(d) = first_diff(&base, &chunked) {
+        return Verdict::fail(format!("NsReader resolved reads: slice vs buffered(cuts {:?}): {} | cfg={} | slice: {} | chunked: {}", cuts, d, cfg_show(c.cfg), show_recs(&base), show_recs(&chunked)));
+    }
+    let asy: Vec<Rec> = {
+        let mut r = NsReader::from_reader(ChunkedAsync::new(data, cuts.clone(), c.pend.clone()));
+        apply_cfg(r.config_mut(), c.cfg);
+        let mut out = vec![];
+        let mut extra = 0;
+        let mut buf = Vec::new();
+        for _ in 0..bound {
+            if c.clear {
+                buf.clear();
+            }
+            let (rec, done, fatal) = {
+                let res = block_on(r.read_resolved_event_into_async(&mut buf));
+                let fatal = matches!(&res, Err(quick_xml::Error::Syntax(_)) | Err(quick_xml::Error::Io(_)) | Err(quick_xml::Error::Encoding(_)));
+                let (rec, done) = ns_rec(&res, 0, 0);
+                (rec, done, fatal)
+            };
+            out.push(Rec { pos: r.buffer_position(), err_pos: r.error_position(), ..rec });
+            if done || fatal || extra > 0 {
+                extra += 1;
+                if extra > EXTRA_CALLS {
+                    break;
+                }
+            }
+        }
+        out
+    };
+    if let Some(d) = first_diff(&base, &asy) {
+        return Verdict::fail(format!("NsReader resolved reads: slice vs async(cuts {:?}, pend {:?}): {} | cfg={} | slice: {} | async: {}", cuts, c.pend, d, cfg_show(c.cfg), show_recs(&base), show_recs(&asy)));
+    }
+    let bound_seen = base.iter().any(|r| matches!(&r.ev, Ev::Other(m) if m.starts_with("Bound(")));
+    let err_seen = base.iter().any(|r| matches!(&r.ev, Ev::Other(m) if m.starts_with("error IllFormed")));
+    let mut v = Verdict::pass(!cuts.is_empty() && (bound_seen || err_seen));
+    if bound_seen {
+        v.classes.push("a-name-resolved-to-a-namespace");
+    }
+    if bound_seen && err_seen {
+        v.classes.push("ill-formedness-error-and-bound-names-in-one-run");
+    }
+    v
+}
+
 fn rot(seed: u64, tag: &str, i: u64) -> SplitMix64 {
     SplitMix64::derive(seed, tag, i)
 }
@@ -431,6 +542,18 @@ fn run(ctx: &Ctx) {
         Case { input: B(input), cfg, cuts, pend, clear }
     });
     ctx.run_proptest("soup-x-random-schedules", ctx.tier.pick(2_000_000, 12_000_000), strat, check);
+    // the namespace-aware reader's resolving reads: documents made of namespace-heavy pieces
+    let ns_piece = prop::sample::select(vec![
+        "<a xmlns='u1'>", "<p:b xmlns:p='u2'>", "<a xmlns:p=\"urn:p\">", "<p:c/>", "<p:b>", "</p:b>", "</a>", "</x>", "<c xmlns=''/>", "<d xmlns:p=''>", "</d>", "<q:e/>", "<a>", "<b/>", "text", " ", "<!--c-->", "<f p:k='v' k='w'/>",
+        "<g xmlns:xml='http://www.w3.org/XML/1998/namespace'>", "</g>", "<h xmlns:q='u3' xmlns='u4'/>", "</p:c>", "<![CDATA[x]]>", "<?pi?>", "<", "</", "<a xmlns:p='u2'/>",
+    ]);
+    let ns_strat = (prop::collection::vec(ns_piece, 1..12), 0u8..128, prop::collection::vec(any::<u16>(), 0..8), prop::collection::vec(0u8..3, 0..8), any::<bool>()).prop_map(|(pieces, cfg, cs, pend, clear)| {
+        let input: Vec<u8> = pieces.concat().into_bytes();
+        let len = input.len();
+        let cuts = cs.into_iter().map(|c| crate::engine::scale(c, len + 1)).collect();
+        Case { input: B(input), cfg, cuts, pend, clear }
+    });
+    ctx.run_proptest("namespace-pieces-through-NsReader-resolving-reads-x-schedules", ctx.tier.pick(300_000, 3_000_000), ns_strat, check_ns);
     // raw reads through stream() between events
     let strat = (gen::soup_strategy(10), 0u8..128, prop::collection::vec(any::<u16>(), 0..8), prop::collection::vec(0u8..3, 0..8), prop::collection::vec((1u8..6, 0u8..9, prop_oneof![6 => Just(0u8), 3 => Just(1u8), 1 => Just(2u8)]), 1..4)).prop_map(|(input, cfg, cs, pend, raws)| {
         let len = input.len();
@@ -483,6 +606,10 @@ fn run(ctx: &Ctx) {
 }
 
 fn replay(stage: &str, case: &Value) -> Result<Verdict, String> {
+    if stage.contains("NsReader") {
+        let c: Case = serde_json::from_value(case.clone()).map_err(|e| e.to_string())?;
+        return Ok(check_ns(&c));
+    }
     if stage.contains("raw-reads") {
         let c: RawCase = serde_json::from_value(case.clone()).map_err(|e| e.to_string())?;
         return Ok(check_raw(&c));
